@@ -106,13 +106,26 @@ def _call(f, conv):
     return {"ok": conv(r)}
 
 
-def _py_dict(d, name_key, child_key):
-    """the Python dictionary denoted by a case node"""
+def _py_dict(d, name_key, child_key, memo=None):
+    """the Python dictionary denoted by a case node; nodes carrying the same "share" id are ONE Python object
+    (a template sub-dictionary nested under several parents)"""
+    if memo is None:
+        memo = {}
+    sid = d.get("share")
+    if sid is not None and sid in memo:
+        return memo[sid]
+    out = _py_dict1(d, name_key, child_key, memo)
+    if sid is not None:
+        memo[sid] = out
+    return out
+
+
+def _py_dict1(d, name_key, child_key, memo):
     items = [(k, v) for k, v in d["entries"]]
     ck = d["ckind"]
     if ck != "missing":
         if ck == "list":
-            val = [_py_dict(k, name_key, child_key) for k in d["kids"]]
+            val = [_py_dict(k, name_key, child_key, memo) for k in d["kids"]]
         else:
             val = {"str": "zz", "int": 3, "none": None, "dict": {name_key: "q"},
                    "tuple": tuple({name_key: f"t{i}"} for i in range(2))}[d["bad"]]
@@ -148,9 +161,14 @@ def run_impl(prop, case):
         return obs
     if kind == "nest":
         C = m["construct"]
+        import copy
         d = _py_dict(case["dict"], case["name_key"], case["child_key"])
-        return _call(lambda: C.nested_dict_to_tree(d, name_key=case["name_key"], child_key=case["child_key"]),
-                     _obs_tree)
+        before = copy.deepcopy(d)
+        build = lambda: C.nested_dict_to_tree(d, name_key=case["name_key"], child_key=case["child_key"])
+        first = _call(build, _obs_tree)
+        unchanged1 = (d == before)
+        second = _call(build, _obs_tree)        # the very same input object once more
+        return {"first": first, "second": second, "unchanged": bool(unchanged1 and d == before)}
     if kind == "heap":
         return _call(lambda: m["l2b"](list(case["list"])), _obs_bin)
     raise ValueError(kind)
@@ -224,7 +242,8 @@ def emit(prop, case, obs):
         outs = clist(cpair(str(ENTRY_CODE[e]), _cout_tree(obs[e])) for e in case["entries"])
         return f"CRel {cbool(case['allow_dup'])} {rows} {outs}"
     if kind == "nest":
-        return f"CNest {cstr(case['name_key'])} ({_cnd(case['dict'])}) ({_cout_tree(obs)})"
+        return (f"CNest {cstr(case['name_key'])} ({_cnd(case['dict'])}) ({_cout_tree(obs['first'])}) "
+                f"({_cout_tree(obs['second'])}) {cbool(obs['unchanged'])}")
     if kind == "heap":
         o = f"Acc ({_cbin(obs['ok'])})" if "ok" in obs else f"Rej {int(obs['err'])}"
         return f"CHeap {clist(cZ(x) for x in case['list'])} ({o})"
@@ -344,8 +363,50 @@ def entries_for(rows, rng=None):
     return ["list", "pandas", "polars"]
 
 
+def gen_bushy(rng):
+    """18-41 nodes (17-40 relation rows): a few hubs with >= 4 children each, the rest spread at random"""
+    n = rng.randint(18, 41)
+    nhubs = rng.randint(2, 5)
+    par = [None]
+    hubs = [0]
+    for i in range(1, n):
+        if len(hubs) < nhubs and rng.random() < 0.3:
+            p = rng.choice(hubs)
+            hubs.append(i)
+        elif rng.random() < 0.75:
+            p = rng.choice(hubs)
+        else:
+            p = rng.randrange(i)
+        par.append(p)
+    return par
+
+
+def short_names(rng, n):
+    """n distinct names of 1-2 characters"""
+    al = "abcdefghijklmnopqrstuvwxyz"
+    pool = list(al) + [x + y for x in "abxy" for y in "abcdxyz01"]
+    rng.shuffle(pool)
+    return pool[:n]
+
+
 def gen_rel_valid(rng, shape=None, nmax=10):
     shape = shape or rng.choice(SHAPES)
+    if shape == "long":
+        par = gen_bushy(rng)
+        names = short_names(rng, len(par))
+        leafdup = rng.random() < 0.3
+        if leafdup:
+            _, ch = preorder(par)
+            leaves = [i for i in range(1, len(par)) if not ch[i]]
+            for i in rng.sample(leaves, min(len(leaves), 3)):
+                others = [j for j in leaves if j != i and par[j] != par[i]
+                          and all(names[s] != names[j] for s in ch[par[i]] if s != i)]
+                if others:
+                    names[i] = names[rng.choice(others)]
+        cols = rng.choice([[], [], ["age"]])
+        attrs = gen_attrs(rng, len(par), cols)
+        rows = tree_rows(par, names, attrs, rng.random() < 0.3)
+        return par, names, cols, attrs, rows, f"long{'+leafdup' if leafdup else ''}"
     par = gen_shape(rng, shape, nmax)
     pool_name = rng.choice(["distinct", "distinct", "affix", "special"])
     leafdup = rng.random() < 0.4
@@ -372,9 +433,13 @@ def gen_rel(rng, force=None):
     kind = force
     if kind is None:
         kind = ("valid" if r < 0.55 else "random" if r < 0.67 else "malformed")
-    if kind == "valid":
-        par, names, cols, attrs, rows, lab = gen_rel_valid(rng)
-        rows = order_rows(rng, rows)
+    if kind in ("valid", "long"):
+        par, names, cols, attrs, rows, lab = gen_rel_valid(rng, "long" if kind == "long" else None)
+        if kind == "long":
+            rows = list(rows)
+            rng.shuffle(rows)
+        else:
+            rows = order_rows(rng, rows)
         return "rel/valid/" + lab, {"kind": "rel", "allow_dup": False, "rows": rows, "cols": cols,
                                     "entries": entries_for(rows)}
     if kind == "random":
@@ -557,10 +622,48 @@ def gen_nest(rng, force_malformed=None):
         return d
 
     d = node(0)
+    shared = False
+    if defect is None and rng.random() < 0.35:
+        shared = _share_template(rng, d, name_key)
     if defect == "empty":
         d = {"entries": [], "ckind": "missing", "kids": [], "cpos": 0}
-    lab = f"nest/{'malformed/' + defect if defect else 'valid'}/{shape}/{pool_name}/{name_key}-{child_key}"
+    lab = f"nest/{'malformed/' + defect if defect else 'shared' if shared else 'valid'}/{shape}/{pool_name}/{name_key}-{child_key}"
     return lab, {"kind": "nest", "name_key": name_key, "child_key": child_key, "dict": d}
+
+
+def _share_template(rng, d, name_key):
+    """make one sub-dictionary (preferably one with children) occur, as the same object, under a second parent"""
+    nodes = []
+
+    def walk(x, parent):
+        nodes.append((x, parent))
+        for k in x["kids"]:
+            walk(k, x)
+    walk(d, None)
+    cands = [x for x, p in nodes if p is not None and x["ckind"] == "list" and x["kids"]] or \
+            [x for x, p in nodes if p is not None]
+    if not cands:
+        return False
+    tmpl = rng.choice(cands)
+    inside = []
+
+    def sub(x):
+        inside.append(id(x))
+        for k in x["kids"]:
+            sub(k)
+    sub(tmpl)
+    tname = [v for k, v in tmpl["entries"] if k == name_key][0]
+    hosts = [x for x, p in nodes if id(x) not in inside and x["ckind"] != "bad"
+             and tmpl not in x["kids"]
+             and all([v for k, v in c["entries"] if k == name_key] != [tname] for c in x["kids"])]
+    if not hosts:
+        return False
+    host = rng.choice(hosts)
+    tmpl["share"] = 1
+    host["ckind"] = "list"
+    host["kids"] = list(host["kids"])
+    host["kids"].insert(rng.randint(0, len(host["kids"])), tmpl)
+    return True
 
 
 def gen_heap(rng):
@@ -615,6 +718,14 @@ def corpus(prop):
                     {"entries": [["name", "d"], ["age", 40]], "ckind": "missing", "cpos": 0, "kids": []},
                     {"entries": [["name", "e"], ["age", 35]], "ckind": "list", "cpos": 1, "kids": [
                         {"entries": [["name", "g"], ["age", 10]], "ckind": "missing", "cpos": 0, "kids": []}]}]}]}}),
+        ("nested-shared-template", {"kind": "nest", "name_key": "name", "child_key": "children", "dict": (lambda unit: {
+            "entries": [["name", "a"]], "ckind": "list", "cpos": 1, "kids": [
+                {"entries": [["name", "b"]], "ckind": "list", "cpos": 1, "kids": [unit]},
+                {"entries": [["name", "c"]], "ckind": "list", "cpos": 0, "kids": [
+                    unit, {"entries": [["name", "f"]], "ckind": "missing", "cpos": 0, "kids": []}]}]})(
+            {"entries": [["name", "x"], ["age", 3]], "ckind": "list", "cpos": 2, "share": 1, "kids": [
+                {"entries": [["name", "y"]], "ckind": "missing", "cpos": 0, "kids": []},
+                {"entries": [["name", "z"]], "ckind": "missing", "cpos": 0, "kids": []}]})}),
         ("nested-empty", {"kind": "nest", "name_key": "name", "child_key": "children",
                           "dict": {"entries": [], "ckind": "missing", "cpos": 0, "kids": []}}),
     ]
@@ -622,10 +733,12 @@ def corpus(prop):
 
 
 def generate(prop, rng, tier):
-    n_rel, n_nest, n_heap, n_cyc = {"quick": (1000, 500, 250, 6), "thorough": (16000, 8000, 3000, 30),
-                                    "search": (3000, 1500, 600, 6)}[tier]
+    n_rel, n_nest, n_heap, n_cyc, n_long = {"quick": (900, 500, 250, 6, 90), "thorough": (16000, 8000, 3000, 30, 1500),
+                                            "search": (2500, 1500, 600, 6, 300)}[tier]
     for _ in range(n_rel):
         yield gen_rel(rng)
+    for _ in range(n_long):
+        yield gen_rel(rng, "long")
     for _ in range(n_cyc):
         yield gen_rel(rng, "cycle_reach")
     for _ in range(n_nest):
@@ -679,6 +792,8 @@ def shrink_candidates(prop, case):
                 c = dict(d)
                 c["kids"] = d["kids"][:i] + d["kids"][i + 1:]
                 yield c
+                if "share" in d["kids"][i]:
+                    continue                      # the occurrences of a shared object must stay identical
                 for v in variants(d["kids"][i]):
                     c = dict(d)
                     c["kids"] = d["kids"][:i] + [v] + d["kids"][i + 1:]
@@ -715,18 +830,21 @@ def nontrivial(prop, case, obs):
         return len(case["rows"]) >= 2
     if k == "heap":
         return len(case["list"]) >= 3
-    return ("ok" in obs and len(obs["ok"]) >= 3) or "err" in obs
+    f = obs["first"]
+    return ("ok" in f and len(f["ok"]) >= 3) or "err" in f
 
 
 def rule(prop):
     return ("relation rows of random trees (2-10 nodes; shapes wide/deep/mixed/path/star; names distinct / repeated at "
             "leaves / affix-related / special characters; 0-2 attribute columns with nulls; rows shuffled, reversed or in "
-            "pre-order; with and without an explicit root row) through list_to_tree_by_relation, "
+            "pre-order; with and without an explicit root row; plus a stratum of long lists: 17-40 shuffled rows, 2-5 "
+            "parents with >= 4 children, 1-2 character names) through list_to_tree_by_relation, "
             "dataframe_to_tree_by_relation (object columns) and polars_to_tree_by_relation with the same rows; a malformed "
             "stream (no root, two roots, root row + second candidate, repeated non-leaf name incl. as last row, duplicate "
             "rows, unreachable and reachable cycles, self loops, empty input, allow_duplicates=True); random rows over "
             "<= 4 names; nested dictionaries with default / non-default keys, missing / empty / ill-typed children, missing "
-            "names, repeated sibling names; number lists of length 1-40 and the empty list.  "
+            "names, repeated sibling names, one sub-dictionary OBJECT nested under two parents; every nested dictionary is built "
+            "twice from the same object and compared with a deep copy taken before (input unchanged); number lists of length 1-40 and the empty list.  "
             "Left out for environment reasons: rows with an empty parent through list_to_tree_by_relation (it builds a "
             "default-dtype DataFrame; pandas 3 turns None into NaN and the pinned bigtree then reports two roots - the "
             "repository's own test_list_to_tree_by_relation_empty_parent fails the same way); DataFrames are built with "
